@@ -50,9 +50,18 @@ static void emu_scroll_down(int top, int bot, int n)
 	}
 }
 
+static int emu_combining(unsigned cp)
+{
+	return (cp >= 0x300 && cp <= 0x36f) || (cp >= 0x483 && cp <= 0x489) || (cp >= 0x591 && cp <= 0x5bd) ||
+		(cp >= 0x610 && cp <= 0x61a) || (cp >= 0x64b && cp <= 0x65f) || cp == 0x670 || (cp >= 0x6d6 && cp <= 0x6dc) ||
+		(cp >= 0x200b && cp <= 0x200f);
+}
+
 static void emu_put(unsigned cp)
 {
 	int w = rv_width(cp, 0);
+	if (emu_combining(cp))
+		return;		/* drawn over the previous cell: no cell of its own */
 	if (cp == '\t')
 		w = 1;
 	if (E.wrap) {
@@ -236,6 +245,8 @@ static int nops_used = 24;
 static char cfg_name[96];
 static int cfg_rows, cfg_cols, cfg_lines, cfg_hl, cfg_hll;
 static int windows = 1;		/* the harness only tracks whether a second window may exist */
+static int structural = 1;	/* 0: right-to-left content, only the repaint twin is used */
+static const char *cfg_exinit_extra = "";
 
 /* ---- oracle ---------------------------------------------------------------------------------------------------------- */
 struct grid { char row[ER][EC * 3 + 4]; int r, c, nrows; };
@@ -314,7 +325,7 @@ static void nx_at_state(void)
 	}
 	take_grid(&mine);
 	/* (1) structural, single window: the rows show lines xtop.. clipped at xleft, fillers past the end; cursor on its character */
-	if (windows == 1) {
+	if (windows == 1 && structural) {
 		int rows = E.rows - 1;
 		if (lbuf_len(xb) && (xrow < xtop || xrow >= xtop + rows)) {
 			nx_viol("c19-window", "the cursor line %d is outside the displayed window %d..%d", xrow + 1, xtop + 1, xtop + rows);
@@ -389,6 +400,8 @@ static void nx_at_state(void)
 		/* with two windows the claim is about the active one (its rows are the scroll region) */
 		if (windows == 2 && (r < E.top || r > E.bot))
 			continue;
+		if (r >= E.rows - 1)
+			continue;
 		if (strcmp(mine.row[r], slot->row[r])) {
 			nx_viol("c19-stale", "terminal row %d shows \"%s\" but a full repaint draws \"%s\" (incremental update left a stale or missing row)",
 				r + 1, nv_esc(mine.row[r], -1), nv_esc(slot->row[r], -1));
@@ -437,14 +450,18 @@ static long cfgidx;
 static void run_config(int lines, int rows, int cols, int hl, int hll, int depth, int nops)
 {
 	char *argv[] = {"vi", "-v", "f.c", NULL};
-	char r[8], c[8], opts[64];
+	char r[8], c[8], opts[128];
 	struct sbuf *sb;
 	int i;
 	vfs_n = 0;
 	cfg_rows = rows; cfg_cols = cols; cfg_lines = lines; cfg_hl = hl; cfg_hll = hll;
 	sb = sbuf_make();
 	for (i = 0; i < lines; i++) {
-		if (i % 7 == 3)
+		if (!structural && i % 3 == 1)
+			sbuf_printf(sb, "\xd8\xa8\xd8\xa7\xd9\x8e\xd8\xa8 abc %d \xd8\xb3\xd9\x84\xd8\xa7\xd9\x85 (x) \xe2\x80\x8c\xd8\xaf\n", i);
+		else if (!structural && i % 3 == 2)
+			sbuf_printf(sb, "latin %d \xd8\xb3\xd9\x84\xd8\xa7\xd9\x85 \\*[ab] $x$ tail\n", i);
+		else if (i % 7 == 3)
 			sbuf_printf(sb, "\tint x%d = %d;\t/* tab */ a long line that runs beyond the width of the narrow windows used here %d\n", i, i, i);
 		else if (i % 7 == 5)
 			sbuf_printf(sb, "w\xe4\xb8\x80" "de %d \xe4\xb8\x80\xe4\xb8\x80 (x)\n", i);
@@ -460,9 +477,9 @@ static void run_config(int lines, int rows, int cols, int hl, int hll, int depth
 	snprintf(c, sizeof(c), "%d", cols);
 	setenv("LINES", r, 1);
 	setenv("COLUMNS", c, 1);
-	snprintf(opts, sizeof(opts), "se %shl|se %shll", hl ? "" : "no", hll ? "" : "no");
+	snprintf(opts, sizeof(opts), "se %shl|se %shll%s", hl ? "" : "no", hll ? "" : "no", cfg_exinit_extra);
 	setenv("EXINIT", opts, 1);
-	snprintf(cfg_name, sizeof(cfg_name), "%dlines/%dx%d/%shl/%shll", lines, rows, cols, hl ? "" : "no", hll ? "" : "no");
+	snprintf(cfg_name, sizeof(cfg_name), "%dlines/%dx%d/%shl/%shll%s%s", lines, rows, cols, hl ? "" : "no", hll ? "" : "no", structural ? "" : "/rtl", cfg_exinit_extra);
 	emu_reset(rows, cols);
 	windows = 1;
 	nops_used = nops;
@@ -495,6 +512,14 @@ int main(int argc, char **argv)
 	run_config(3, 8, 40, 1, 1, d, 24);
 	run_config(0, 5, 20, 1, 0, d - 1, 24);
 	run_config(40, 8, 40, 1, 0, d - 1, NOPS);
+	/* right-to-left and mixed-direction lines, in both base directions: the repaint twin only */
+	structural = 0;
+	cfg_exinit_extra = "";
+	run_config(12, 8, 40, 1, 0, d - 1, 24);
+	cfg_exinit_extra = "|se td=-2";
+	run_config(12, 8, 40, 0, 1, d - 1, 24);
+	structural = 1;
+	cfg_exinit_extra = "";
 	if (nv_thorough) {
 		run_config(40, 24, 80, 1, 0, d - 1, NOPS);
 		run_config(40, 5, 20, 1, 1, d - 1, NOPS);
